@@ -612,7 +612,7 @@ impl Property for C08 {
         }
     }
     fn rule(&self) -> &'static str {
-        "one case = project with shared dependencies + a priming invocation of every root + a second invocation with a request list containing duplicates, both spellings and dependency+dependent pairs, each under its own seeded schedule; per invocation and target the oracle counts script starts and skips (exactly one inside the closure on success, at most one always, zero outside) and compares the bytes and mtimes of outsiders' state files and outputs before/after. A quarter of the primed cases tear the record of one target before the second invocation; multi-project cases are built first and then partly cleaned (`--clean T`), with one-letter extension filters on shared output directories and links from one target's filtered output directory into another target's. distinct_nontrivial = distinct order hashes among runs whose closure contains a target with two or more requesters"
+        "one case = project with shared dependencies + a priming invocation of every root + a second invocation with a request list containing duplicates, both spellings and dependency+dependent pairs, each under its own seeded schedule; per invocation and target the oracle counts script starts and skips (exactly one inside the closure on success, at most one always, zero outside) and compares the bytes and mtimes of outsiders' state files and outputs before/after. A quarter of the primed cases tear the record of one target before the second invocation; multi-project cases are built first and then partly cleaned (`--clean T`), with one-letter extension filters on shared output directories and links from one target's filtered output directory into another target's. One multi-project case in eight has target names too long for a record to fit in a directory entry (nothing can be recorded, and nothing may be written under a shortened name either: every entry of a work directory that is not the record of a target of the closure counts as outsider state). distinct_nontrivial = distinct order hashes among runs whose closure contains a target with two or more requesters"
     }
     fn generate(&self, rng: &mut Rng, _case: u64) -> Scenario {
         if rng.chance(30) {
@@ -822,6 +822,10 @@ impl Property for C07 {
         if rng.chance(30) {
             return super::watch::gen_watch(rng, &super::watch::WatchOpts { fail_pct: 100, max_bursts: 3, ..Default::default() });
         }
+        if case_no % 25 == 3 {
+            // a re-build failing below a chain of dependents, then edits of the dependents' sources
+            return super::watch::gen_watch_failure_below(rng);
+        }
         // every 40th case: a wide graph (queues full) with one more, failing, target beside it
         let wide = case_no % 40 == 11;
         let mut sc = gen::gen_graph(rng, &GraphOpts { max_n: 9, force_wide: wide, ..Default::default() });
@@ -1022,7 +1026,7 @@ impl Property for C17 {
         }
     }
     fn rule(&self) -> &'static str {
-        "one case = generated project in which an antichain of 2..6 mutually independent build targets (none reachable from another) carries rendezvous-gated scripts: a member's exit event is enabled only once every member has started; unrelated never-ending builds and services run alongside. Every seventh case a member consumes `lib::<name>.output` beside a local namesake of that target. The run can complete iff all members overlap; a stall with an unstarted member whose dependencies are all ready is the violation. Three cases in ten run with --watch, members watching several directories that are written to while targets are still being launched. distinct_nontrivial = distinct order hashes among runs where at least two members were in progress together"
+        "one case = generated project in which an antichain of 2..6 mutually independent build targets (none reachable from another) carries rendezvous-gated scripts: a member's exit event is enabled only once every member has started; unrelated never-ending builds and services run alongside. Every seventh case a member consumes `lib::<name>.output` beside a local namesake of that target. The run can complete iff all members overlap; a stall with an unstarted member whose dependencies are all ready is the violation. Three cases in ten run with --watch, members watching several directories that are written to while targets are still being launched. Half of the cases with gated command captures are run twice over the untouched tree: the second time the up-to-date checks are what waits for the commands. distinct_nontrivial = distinct order hashes among runs where at least two members were in progress together"
     }
     fn generate(&self, rng: &mut Rng, case_no: u64) -> Scenario {
         let mut sc = gen::gen_graph(rng, &GraphOpts { max_n: 9, ..Default::default() });
